@@ -311,6 +311,15 @@ func (c *zzC06Cast) quiescent() {
 		rt.Assume(fid < zzM)
 		rt.Assume(chord.Between(pre.ID(), fid, n.ID(), false))
 		fresh := &zzStub{id: fid}
+		if pre.ID() != n.ID() && pre.Ping() != nil {
+			// the node's predecessor is a node that has just left and has not been dropped yet (the periodic tasks are
+			// stubbed out here): the node is serving, but answers a join with a retryable refusal until its
+			// predecessor pointer is repaired (it would otherwise hand over only part of the joiner's range)
+			_, _, err := n.RequestToJoin(fresh)
+			rt.Assert(err != nil && chord.ErrorIsRetryable(err), "fresh-join-while-the-predecessor-has-left-is-refused-retryably")
+			rt.Assert(n.state.Get() == chord.Active, "serving-again-after-the-fresh-requests")
+			continue
+		}
 		_, list, err := n.RequestToJoin(fresh)
 		rt.Assert(err == nil, "fresh-join-request-is-granted")
 		if err == nil {
